@@ -34,6 +34,7 @@ structure Node where
   paFirst : Bool              -- peer A's name sorts before the local one: A is the zone master while connected
   satRev : Bool := false      -- iteration order of zone sat's / zone top's endpoints (see `orient`)
   topRev : Bool := false
+  dropped : Bool := false     -- zone zx has been unregistered (`Op.drop`): ConfigObject::GetObject finds nothing, apilistener.cpp:1541-1546
 
 def Node.setPeer (n : Node) (i : Nat) (f : Peer → Peer) : Node :=
   { n with peers := fun j => if j = i then f (n.peers j) else n.peers j }
@@ -66,6 +67,9 @@ inductive Op
   | recv (p : Nat) (ts : Int)
   | crashStart (now : Int) (satRev topRev : Bool)   -- the process dies (every byte written so far is on disk), a new one starts at
                                                     -- `now`; its std::set orders of the two-endpoint zones are whatever they are
+  | stopStart (now : Int) (satRev topRev : Bool)    -- graceful restart: ApiListener::Stop (CloseLogFile, RotateLogFile — apilistener.cpp:376-380;
+                                                    -- WHEN it ran does not matter, `stop_time_irrelevant`), then a new process starts at `now`
+  | drop                                            -- the object "zx" (security object 3) is deleted at runtime
   deriving Repr
 
 def outObs (o : List Out) : List OutObs := o.map fun | .msg e => .m e.id e.ts | .setPos v => .l v
@@ -91,7 +95,7 @@ def stepOp (c : Codec) (limit : Nat) (n : Node) : Op → Node × List Step
     (n', [⟨.disc p, n'.pos⟩])
   | .replay now p =>
     let pr := n.peers p
-    let r := replay c.dec (fun o => may false p (some o)) limit now pr.dur pr.lpos n.snd
+    let r := replay c.dec (fun o => may n.dropped p (some o)) limit now pr.dur pr.lpos n.snd
     let n' := ({ n with snd := replaySender now pr.dur n.snd }).setPeer p (fun q => { q with syncing := false })
     (n', [⟨.replay now p (outObs r.out) none, n'.pos⟩])
   | .rotate now =>
@@ -116,10 +120,24 @@ def stepOp (c : Codec) (limit : Nat) (n : Node) : Op → Node × List Step
     let n' : Node := { n with snd := start now (crash len n.snd), satRev := sr, topRev := tr,
                               peers := fun i => { n.peers i with connected := false, syncing := false } }
     (n', [⟨.damage ⟨none, len, false⟩, n'.pos⟩, ⟨.restart, n'.pos⟩])
+  | .stopStart now sr tr =>
+    let s1 := stop now n.snd
+    let n' : Node := { n with snd := start now s1, satRev := sr, topRev := tr,
+                              peers := fun i => { n.peers i with connected := false, syncing := false } }
+    -- what the driver feeds to the spec for the harness's `stop` and `start` lines: a rotation, the end of all connections (twice)
+    (n', [⟨.rotate (newNames n.snd s1).head?, n'.pos⟩, ⟨.restart, n'.pos⟩, ⟨.restart, n'.pos⟩])
+  | .drop =>
+    let n' : Node := { n with dropped := true }
+    (n', [⟨.drop, n'.pos⟩])
 
 def runModel (c : Codec) (limit : Nat) : Node → List Op → List Step
   | _, [] => []
   | n, op :: r => (stepOp c limit n op).2 ++ runModel c limit (stepOp c limit n op).1 r
+
+/-- The node itself after a sequence of operations (the state `runModel` ends in). -/
+def endNode (c : Codec) (limit : Nat) : Node → List Op → Node
+  | n, [] => n
+  | n, op :: r => endNode c limit (stepOp c limit n op).1 r
 
 /-- A fresh node: empty directory, log opened at `t0`, nobody connected, positions 0; `durs p` = log_duration of peer p. -/
 def initNode (t0 : Int) (paFirst satRev topRev : Bool) (durs : Nat → Int) : Node :=
@@ -132,7 +150,7 @@ def dursList (durs : Nat → Int) : List Int := [durs 0, durs 1, durs 2, durs 3,
 /-- The virtual clock: which time an operation happens at (operations without a time take none). -/
 def Op.time : Op → Option Int
   | .relay now _ _ => some now | .replay now _ => some now | .rotate now => some now
-  | .timer now => some now | .crashStart now _ _ => some now | _ => none
+  | .timer now => some now | .crashStart now _ _ => some now | .stopStart now _ _ => some now | _ => none
 
 def Op.peerOk : Op → Bool
   | .conn p => p < 6 | .attach p => p < 6 | .disc p => p < 6 | .replay _ p => p < 6 | .ack p _ => p < 6 | .recv p _ => p < 6 | _ => true
@@ -157,6 +175,7 @@ def syncObs (c : Codec) (limit : Nat) (n : Node) : Op → List SyncEv
   | .disc p => [.detach p]
   | .replay now p => [.synced p ((stepOp c limit n (.replay now p)).1.peers p).syncing]
   | .crashStart _ _ _ => [.restart]
+  | .stopStart _ _ _ => [.restart, .restart]
   | _ => []
 
 def runSync (c : Codec) (limit : Nat) : Node → List Op → List SyncEv
